@@ -130,6 +130,14 @@ def check_all(trace, props=("C07", "C08", "C09", "C11", "C12", "C13", "C17")):
             fails[p].append({"leg": len(trace["legs"]), "msg": "run raised %s: %s" % (trace["error"]["exc"],
                                                                                      trace["error"]["msg"])})
         return fails, stats
+    if "C07" in props:
+        # the initial configuration (random creators, input files): every position lies in the box
+        for k, u in st.units.items():
+            for d in range(st.dim):
+                x = fr(u["pos"][d])
+                if not (0 <= x < st.L[d]):
+                    fails["C07"].append({"leg": 0, "msg": "initial position of %r outside the box: %r (direction %d)"
+                                         % (k, float(x), d)})
     if "C12" in props and st.children:
         # the randomly generated initial molecules
         for root in st.roots:
